@@ -316,6 +316,27 @@ def specStep (env : Env K E) (p : Bytes) (prev : Option (Info K E)) (op : Op) (o
        | none => true
        | some i0 => env.peerIdOf ((parsePublicKey env m.publicKey).getD i0.publicKey) != p)
 
+/-- the three direct calls of the `tryfrom` harness op: `Info::try_from`, then
+`handle_incoming_info` on a fresh handler for peer `p`, then `multiaddr_matches_peer_id` as a
+filter over the parsed addresses -/
+def tryDirect (env : Env K E) (p : Bytes) (m : Msg) : Option (Info K E × Bool × List Maddr) :=
+  (tryFrom env m).map fun i =>
+    (i, (handleIncomingInfo env p none i).2, i.listenAddrs.filter (matchesPeer · p))
+
+/-- Spec of the direct calls -/
+def specTryFrom (env : Env K E) (p : Bytes) (m : Msg) (res : Option (Info K E × Bool × List Maddr)) : Bool :=
+  match res with
+  | none => msgKey env m == none
+  | some (info, acc, filt) =>
+    msgKey env m == some info.publicKey &&
+    (acc == (env.peerIdOf info.publicKey == p)) &&
+    filt.all (matchesPeer · p) && filt == info.listenAddrs.filter (matchesPeer · p) &&
+    (match info.signedPeerRecord with
+     | some e => msgRecord env (env.peerIdOf info.publicKey) m == some e &&
+                 some info.listenAddrs = recordAddrs env e
+     | none => msgRecord env (env.peerIdOf info.publicKey) m == none &&
+               info.listenAddrs = parseListenAddrs env m.listenAddrs)
+
 /-- monitor: the previous reported info is tracked from the outputs themselves -/
 def specNext (prev : Option (Info K E)) (out : Out K E) : Option (Info K E) :=
   match out with
